@@ -1,6 +1,6 @@
 (* C20 — wire interface. *)
 From Coq Require Import List NArith ZArith Bool.
-From Baize Require Import Lib.Wire Lib.Order C02.Model C02.IO Resp.Model Resp.IO C20.Model.
+From Baize Require Import Lib.Wire Lib.Order C02.Model C02.IO Resp.Model Resp.IO C20.Model C20.Acts.
 Import ListNotations.
 
 Definition rd_emitted (x : sx) : emitted :=
@@ -22,8 +22,38 @@ Definition rd_action (x : sx) : action :=
 Definition show_trace (t : trace) : sx :=
   Lst [of_nat (t_status t); show_headers (t_headers t); Str (body_bytes t)].
 
+(* action lists: ( s <status> <headers> ) ( r <status> <headers> ) ( y <bytes> ) ( x )
+   resp. ( s .. ) ( b <bytes> ) ( z <bytes> ) ( x ) *)
+Definition rd_wact (x : sx) : wact :=
+  match x with
+  | Lst [Str k; Num st; Lst hs] => if bytes_eqb k (lit "r") then IRestart (Z.to_nat st) (map rd_header hs)
+                                   else IStart (Z.to_nat st) (map rd_header hs)
+  | Lst [Str k; Str d] => IYield d
+  | _ => IRaise
+  end.
+
+Definition rd_aact (x : sx) : aact :=
+  match x with
+  | Lst [Str k; Num st; Lst hs] => MStart (Z.to_nat st) (map rd_header hs)
+  | Lst [Str k; Str d] => if bytes_eqb k (lit "z") then MZero d else MBody d
+  | _ => MRaise
+  end.
+
+Definition show_outcome (o : outcome) : sx :=
+  match o with
+  | Completed st hs b => Lst [of_nat st; show_headers hs; Str b]
+  | Aborted st hs b => Lst [of_nat st; show_headers hs; Str b; tag (lit "aborted")]
+  | Raised => Lst [tag (lit "raised")]
+  end.
+
 Definition run_case (c : list sx) : list sx :=
   match c with
+  | [Str op; Lst wa; Lst aa; Lst acts] =>
+      let w := map rd_wact wa in
+      let a := map rd_aact aa in
+      let st := map rd_action acts in
+      [show_outcome (serve_w (stack_w st w)); show_outcome (serve_a (stack_a st a));
+       show_outcome (serve_w w); show_outcome (serve_a a)]
   | [wt; at_; Lst acts] =>
       match rd_trace wt, rd_trace at_ with
       | Some w, Some a =>
